@@ -17,6 +17,7 @@ ASSUMPTIONS = [
     "sin/cos/exp/log/log2/pow are uninterpreted functions constrained only by the axioms listed under coverage.extra.axioms (bounds, monotonicity, positivity, landmark values taken from the real NumPy functions); libm's conformance to these axioms is trusted",
     "sqrt is exact (y>=0, y*y=x), floor is exact (integer k<=x<k+1), abs is exact",
     "f is evaluated in exact real arithmetic: an overshoot of fmax at the level of one rounding error is not excluded by this model",
+    "purity: same value twice at the same x with an unrelated evaluation in between, no random draw, no attribute change, argument untouched; a second independently constructed instance gives at x the value of a copy of it evaluated after the process-wide state of the PyXAB modules was put back to import time; f <= fmax also for an instance built after another one was evaluated at the same point (max2-*)",
     "existential clauses (fmax attained at the documented maximiser, Garland's maximum >= 0.997) are witnesses evaluated concretely on the real code",
 ]
 EXTRA_EVIDENCE = {"axioms": sorted([
@@ -54,6 +55,7 @@ def configs(tier, seed):
     for name in OBJ:
         out.append({"name": "max-" + name, "mode": "max", "obj": name, "cost": 5})
         out.append({"name": "pure-" + name, "mode": "pure", "obj": name})
+        out.append({"name": "max2-" + name, "mode": "max", "second_instance": True, "obj": name, "cost": 5})
         out.append({"name": "dim-" + name, "mode": "dim", "obj": name})
         out.append({"name": "witness-" + name, "mode": "witness", "obj": name})
     out.append({"name": "twin-Ackley", "mode": "max", "obj": "Ackley", "twin": True, "expect_fail": "twin"})
@@ -85,6 +87,10 @@ def run(ctx, cfg):
     obj, dom, dim, maxi, params = make(ctx, cfg)
     if mode == "max":
         xs = [ctx.real("x%d" % i, lo, hi) for i, (lo, hi) in enumerate(dom)]
+        if cfg.get("second_instance"):
+            # an earlier instance (own parameters, own offset) was evaluated at the same point before this one was built
+            ctx.call("f", obj.f, list(xs))
+            obj, dom, dim, maxi, params = make(ctx, cfg)
         y = ctx.call("f", obj.f, xs)
         fin = ctx.is_finite_number(y)
         ctx.check("finite", fin, "f returned %r" % (y,))
@@ -109,6 +115,15 @@ def run(ctx, cfg):
         ctx.check("pure_same_value", ctx.same(y1, y2) if isinstance(y1, Sym) or isinstance(y2, Sym) else y1 == y2, "two evaluations at the same x differ")
         ctx.check_eq("pure_same_value_num", y1, y2)
         ctx.check("pure_no_random_draw", n_in == n_out, "f consumed a random draw / input")
+        # a second, independently constructed instance evaluated at x after the first one was: the same value as a
+        # copy of it evaluated with the process-wide state (module globals, class attributes) put back to import time
+        from sx import shims as _shims
+        objB = make(ctx, cfg)[0]
+        objB_twin = _copy.deepcopy(objB)
+        yB = ctx.call("f", objB.f, list(xs))
+        _shims.restore_state()
+        yB_fresh = ctx.call("f", objB_twin.f, list(xs))
+        ctx.check_eq("pure_independent_of_other_instances", yB, yB_fresh, "f(x) of an instance depends on evaluations made by another instance")
         after = vars(obj)
         ctx.check("pure_no_state_change", set(before) == set(after) and all(before[k] is after[k] or (not isinstance(before[k], Sym) and before[k] == after[k]) for k in before),
                   "f modified the objective's attributes")
